@@ -61,7 +61,7 @@ fn ts<T: quote::ToTokens>(t: &T) -> String {
     canon(t.to_token_stream())
 }
 
-/// canonical token string: like `to_string()`, except that a negative literal token is printed as `-` followed by the
+/// canonical token string: like `to_string()`, except that punctuation spacing is dropped and a negative literal token is printed as `-` followed by the
 /// literal, which is how the compiler's own token streams represent it
 fn canon(ts: TokenStream) -> String {
     fn norm(ts: TokenStream) -> TokenStream {
@@ -84,6 +84,10 @@ fn canon(ts: TokenStream) -> String {
                     } else {
                         out.extend(std::iter::once(TokenTree::Literal(l)));
                     }
+                }
+                TokenTree::Punct(p) => {
+                    // spacing (`>:` vs `> :`) is not part of the token identity we compare
+                    out.extend(std::iter::once(TokenTree::Punct(proc_macro2::Punct::new(p.as_char(), proc_macro2::Spacing::Alone))));
                 }
                 other => out.extend(std::iter::once(other)),
             }
